@@ -101,6 +101,14 @@ def siblings (h : Heap) (s : GoSlice) : List Str → Heap × List GoSlice
     let r := siblings c.1 s rest
     (r.1, c.2 :: r.2)
 
+/-- any sequence of nested loads: step `(i, d)` derives a child for directory `d` from the `i`-th list created so far
+(`0` = the project's options) and adds it to the lists — siblings, children of children, in any interleaving -/
+def runScript (h : Heap) (opts : List GoSlice) : List (Nat × Str) → Heap × List GoSlice
+  | [] => (h, opts)
+  | (i, d) :: rest =>
+    let c := childLoaders h (opts.getD i none) d
+    runScript c.1 (opts ++ [c.2]) rest
+
 /-- the working directory of the list's local loader (the last one, as the `baseDir` loop of `ApplyInclude` reads it) -/
 def localDir : List (Option Loader) → Option Str
   | [] => none
